@@ -11,7 +11,7 @@ pub open spec fn repeated_path_or_empty(line: Seq<char>) -> Seq<char> {
 }
 
 pub open spec fn hdr_plus_test(sm: &StateMachine) -> bool {
-    (sm.state is DiffHeader || sm.source == Source::DiffUnified)
+    sm.state is DiffHeader
     && (is_prefix("+++ "@, sm.line@) || is_prefix("rename to "@, sm.line@) || is_prefix("copy to "@, sm.line@))
 }
 /// Opaque stand-in for `Box<draw::DrawFunction>` (a boxed `dyn FnMut`); called through `verif_draw`.
@@ -61,6 +61,7 @@ impl<'a> StateMachine<'a> {
     //@ fn src/handlers/diff_header.rs StateMachine::handle_pending_line_with_diff_name spec=diff_header.handle_pending
     //@ fn src/handlers/diff_header.rs StateMachine::test_diff_header_plus_line
     //@| ensures r == hdr_plus_test(self),
+    //@|         r ==> self.state is DiffHeader,  // @C14,C01:a.line.is.taken.for.the.plus.header.only.directly.after.the.minus.header.never.inside.a.hunk
     //@ fn src/handlers/diff_header.rs StateMachine::handle_diff_header_plus_line spec=diff_header.handle_plus
     //@ fn src/handlers/diff_header.rs StateMachine::test_diff_header_minus_line
     //@| ensures r ==> (self.state is DiffHeader || self.source == Source::DiffUnified),
